@@ -165,7 +165,9 @@ class Dnf(walkers.dag.DagWalker):
             big_conjunction = [lit for conj in conj_list for lit in conj]
             simp = self._simplifier.simplify(self.manager.And(big_conjunction))
             if simp.is_true():
-                return []
+                # a product term that is always true makes the whole disjunction true:
+                # the disjunction of the single empty conjunction (not the empty disjunction)
+                return [[]]
             elif simp.is_false():
                 pass
             elif simp.is_and():
